@@ -170,8 +170,6 @@ pub fn get_solidity_version_from_source_unit(source_unit: SourceUnit) -> Option<
     let target_nodes =
         ast::extract_target_from_node(Target::PragmaDirective, source_unit.clone().into());
 
-    //check if the solidity version is < 0.8.0
-    let mut solidity_minor_version: i32 = 0;
     for node in target_nodes {
         let source_unit_part = node.source_unit_part().unwrap();
 
@@ -183,17 +181,20 @@ pub fn get_solidity_version_from_source_unit(source_unit: SourceUnit) -> Option<
                 continue;
             }
 
-            let minor_major_patch_version =
+            let mut major_minor_patch_version =
                 get_solidity_major_minor_patch_version(&solidity_version_literal.string)
-                    .iter()
-                    .map(|f| f.parse::<i32>().unwrap())
-                    .collect::<Vec<i32>>();
+                    .into_iter()
+                    .map(|f| f.parse::<i32>());
 
-            return Some((
-                minor_major_patch_version[0],
-                minor_major_patch_version[1],
-                minor_major_patch_version[2],
-            ));
+            //A component that is missing or does not fit into an i32 means there is no usable version
+            return match (
+                major_minor_patch_version.next(),
+                major_minor_patch_version.next(),
+                major_minor_patch_version.next(),
+            ) {
+                (Some(Ok(major)), Some(Ok(minor)), Some(Ok(patch))) => Some((major, minor, patch)),
+                _ => None,
+            };
         }
     }
 
